@@ -49,3 +49,11 @@ func (s *ImmuStore) simTryCommitStateW() bool {
 	}
 	return false
 }
+
+func (s *ImmuStore) simTryValBsMux() bool {
+	if s._valBsMux.TryLock() {
+		s._valBsMux.Unlock()
+		return true
+	}
+	return false
+}
